@@ -95,7 +95,7 @@ fn base_trees() -> Vec<Tree> {
     vec![t1, t2]
 }
 
-const N_MUT: usize = 15;
+const N_MUT: usize = 20;
 
 /// Apply mutation m to a tree. `files`, `dirs`, `links`: the first names of each kind in the base.
 fn mutate(t: &mut Tree, m: usize) {
@@ -190,6 +190,39 @@ fn mutate(t: &mut Tree, m: usize) {
             if let Some(k) = first(t, &is_link, 0) {
                 t.get_mut(&k).unwrap().kind = NodeKind::Symlink("retargeted".into());
             }
+        }
+        15 => {
+            // chmod of a directory
+            if let Some(k) = first(t, &is_dir, 0) {
+                t.get_mut(&k).unwrap().mode = 0o700;
+            }
+        }
+        16 => {
+            // chgrp of a directory
+            if let Some(k) = first(t, &is_dir, 0) {
+                t.get_mut(&k).unwrap().gid = 3;
+            }
+        }
+        17 => {
+            // chown of a symlink
+            if let Some(k) = first(t, &is_link, 0) {
+                t.get_mut(&k).unwrap().uid = 2;
+            }
+        }
+        18 => {
+            // mtime of a directory and of a symlink only: not a change, by the statement
+            if let Some(k) = first(t, &is_dir, 0) {
+                t.get_mut(&k).unwrap().mtime.0 += 77;
+            }
+            if let Some(k) = first(t, &is_link, 0) {
+                t.get_mut(&k).unwrap().mtime.0 += 78;
+            }
+        }
+        19 => {
+            // chmod and chown of the root directory
+            let n = t.get_mut("").unwrap();
+            n.mode = 0o750;
+            n.gid = 1;
         }
         _ => {
             // size-only change, same mtime
@@ -314,7 +347,7 @@ pub fn judge(base: &Tree, muts: &[usize], scratch: &Scratch) -> Vec<Violation> {
 pub fn run(report: &Report, budget: &Budget) {
     let thorough = report.thorough();
     let muts: Vec<usize> = (0..N_MUT).collect();
-    let sets = gen::subsets_upto(&muts, if thorough { 5 } else { 3 });
+    let sets = gen::subsets_upto(&muts, if thorough { 4 } else { 3 });
     let bases = base_trees();
     let scratches: Vec<Scratch> = (0..crate::util::n_workers()).map(|_| Scratch::new("c18")).collect();
     let n = AtomicU64::new(0);
@@ -337,7 +370,7 @@ pub fn run(report: &Report, budget: &Budget) {
     report.set("transitions", json!(n.load(AO::Relaxed) * 5));
     report.set("traces_validated_against_impl", json!(n.load(AO::Relaxed) * 5));
     report.set("exhaustive", json!(done == total));
-    report.set("explanation", json!("two base trees x every set of at most N mutations from a menu of 15 (content, size-only, mtime-only, chmod, chown, kind swaps, additions, removals, retargeted link): diff with and without include_unchanged and the next backup's change callback are compared with the difference of the two tree models"));
+    report.set("explanation", json!("two base trees x every set of at most N mutations from a menu of 20 (content, size-only, mtime-only, chmod, chown, kind swaps, additions, removals, retargeted link): diff with and without include_unchanged and the next backup's change callback are compared with the difference of the two tree models"));
     report.assume("the change callback is compared on regular files only; kind swaps are left out of that comparison, as the callback is only defined for files");
     report.assume("directory mtimes are not a change (as the implementation documents)");
 }
